@@ -128,6 +128,71 @@ def headers_ctor_passthrough(p: Program) -> List[Item]:
     return out
 
 
+def headers_ctor_folds(p: Program) -> List[Item]:
+    """Names that differ only in case are ONE header: the constructor folds a repeated (lower-cased) name into `old, new`. A store
+    that cannot fold - a dict comprehension / dict(generator) keyed by `<name>.lower()` (the later pair silently replaces the
+    earlier one), or a plain `store[name] = value` that no membership test of the name guards - loses a value whenever two given
+    names collide after lower-casing ({**required_headers, **headers} with `cache-control` next to `Cache-Control`)."""
+    from ..common import with_helpers
+
+    init = _init(p)
+    out: List[Item] = []
+    n_ok = 0
+    for fn in with_helpers(p, init):
+        for n in ast.walk(fn.node):
+            comp = None
+            if isinstance(n, ast.DictComp):
+                comp, key = n, n.key
+            elif isinstance(n, ast.Call) and isinstance(n.func, ast.Name) and n.func.id == "dict" and n.args and isinstance(n.args[0], (ast.GeneratorExp, ast.ListComp)) \
+                    and isinstance(n.args[0].elt, ast.Tuple) and len(n.args[0].elt.elts) == 2:
+                comp, key = n, n.args[0].elt.elts[0]
+            if comp is not None and isinstance(key, ast.Call) and isinstance(key.func, ast.Attribute) and key.func.attr in ("lower", "casefold"):
+                out.append(("violation", fn, comp, "header store built by a comprehension keyed by lower-cased names",
+                            f"Headers.__init__ builds the store with `{' '.join(ast.unparse(comp).split())[:70]}`: two given names that differ only in case collide and the later one "
+                            "silently replaces the earlier instead of being folded into `old, new` - {**required_headers, **headers} with `cache-control` next to `Cache-Control` loses the "
+                            "required value, a `content-type` next to `Content-Type` loses the charset declaration"))
+            if isinstance(n, ast.Assign) and len(n.targets) == 1 and isinstance(n.targets[0], ast.Subscript) and isinstance(n.value, ast.Name):
+                # only the pair's own value (a name bound by the enclosing loop's target): a local computed from it (`merged`) is a
+                # fold result that headers_ctor_passthrough judges
+                lp_ = getattr(n, "_parent", None)
+                while lp_ is not None and not isinstance(lp_, ast.For):
+                    lp_ = getattr(lp_, "_parent", None)
+                if lp_ is None or n.value.id not in {x.id for x in ast.walk(lp_.target) if isinstance(x, ast.Name)}:
+                    continue
+                tgt = n.targets[0]
+                k = tgt.slice
+                ktxt, btxt = ast.unparse(k), ast.unparse(tgt.value)
+                q = getattr(n, "_parent", None)
+                in_loop = False
+                guarded = False
+                while q is not None and q is not fn.node:
+                    if isinstance(q, (ast.For, ast.While)):
+                        in_loop = True
+                    if isinstance(q, ast.If):
+                        for c in ast.walk(q.test):
+                            if isinstance(c, ast.Compare) and len(c.ops) == 1 and isinstance(c.ops[0], (ast.In, ast.NotIn)) and ast.unparse(c.left) == ktxt and ast.unparse(c.comparators[0]) == btxt:
+                                guarded = True
+                    if isinstance(q, ast.Try):
+                        guarded = True  # EAFP fold: try: store[k] = store[k] + ... except KeyError: store[k] = v
+                    q = getattr(q, "_parent", None)
+                if not in_loop:
+                    continue
+                if guarded:
+                    n_ok += 1
+                else:
+                    out.append(("violation", fn, n, f"unguarded store {ktxt}",
+                                f"Headers.__init__ stores `{' '.join(ast.unparse(n).split())[:60]}` for every pair without asking whether the (lower-cased) name is already present: "
+                                "a repeated name - two spellings of one header in a mapping, two lines of one header in a list - keeps only the last value instead of `old, new`"))
+    if not out:
+        if n_ok:
+            out.append(("ok", init, None, "", f"Headers.__init__ folds a repeated lower-cased name ({n_ok} guarded plain store(s), no comprehension-built store)"))
+        else:
+            # the fold is written in another idiom (try/except KeyError around the lookup, setdefault, a merged local ...): the values
+            # that are stored are judged on the paths by headers_ctor_passthrough; this rule only names the constructs that cannot fold
+            out.append(("ok", init, None, "", "Headers.__init__: no store that cannot fold a repeated name (comprehension-built store / unguarded plain store of the pair value) found"))
+    return out
+
+
 def multi_header_scan_breaks(fn):
     """Loops `for k, v in <scope>["headers"]` of `fn` that look for TWO OR MORE header names and contain a `break` / `return`:
     whichever header comes after the one that ends the scan is never read (header order is the client's choice).
